@@ -18,61 +18,88 @@ from core import Ctx, Violation, err_name, ints
 
 PROP = "C12"
 MANIFEST = {
-    "text": "Lean 4 theorems for all file lists / slice counts / slice filters / contexts / member sizes: the volume ranges "
-            "built by parse_filenames_data (H5SliceData and its subclasses FastMRIDataset / CalgaryCampinasDataset, and "
-            "CMRxReconDataset with num_slices = a*b | a | b) are contiguous from 0, ordered, and cover 0..len-1 exactly once for "
-            "distinct file names (empty-after-filter volumes get empty ranges, unreadable/missing files none); data[start_k + r] "
-            "is the r-th smallest admissible slice of the k-th readable file and len(range(*slice.indices(n))) equals the "
-            "number of admitted slices; CMRx 2-D index s <-> (s // b, s % b) is a bijection; the context window has length "
-            "2c+1, centre = the slice, entry j = slice s-c+j or a zero block; file selection (filenames_filter > "
-            "filenames_lists > directory listing, then regex) is invariant under permutations of the directory listing iff the "
-            "listing is sorted; ConcatDataset maps idx to (member, local index) uniquely, negatives as len+idx, out-of-range "
-            "rejected; synthetic items are functions of the per-sample seed only. Tied to the code by translated arithmetic + "
-            "structural tables (bridge lemmas) and exact differential correspondence on labelled h5/.mat fixtures built from "
-            "constructor arguments, and recorded numpy RNG calls.",
-    "note": "Trusted: Lean kernel (+propext, Classical.choice, Quot.sound), the AST translator, h5py slicing, Python "
-            "slice.indices / range / dict / bisect.bisect_right / re.match / pathlib.glob (hand-modelled or taken as inputs, validated "
-            "by correspondence), numpy RandomState and sklearn make_blobs as 'a stream seeded with s yields the same draws'. "
-            "FastMRI fixtures carry a minimal valid ISMRMRD XML header written by the harness (the real header parser runs). "
-            "The numerics between draws and k-space are a parameter `render`; their bit-reproducibility is checked on the "
-            "implementation only. Findings on the current tree (modelled faithfully, *_current_violates witnesses): unsorted "
-            "directory listing (index map depends on OS listing order); a file name occurring twice breaks the partition "
-            "(dict keyed by name); CMRxReconConfig.regex_filter is not accepted by CMRxReconDataset (TypeError in "
-            "build_dataset_from_input). Repaired: SheppLogan noise from the global stream (shepp_pinned_violates).",
-    "technique": "Lean 4 proof (list induction, omega, permutation counting) + AST translation bridge + differential "
-                 "correspondence + property oracle on the real datasets (incl. subprocesses with varied PYTHONHASHSEED)",
+    "text": "Lean 4 theorems for all file lists / slice counts / slice filters / contexts / member sizes / index values: the volume "
+            "ranges built by parse_filenames_data (H5SliceData and its subclasses FastMRIDataset / CalgaryCampinasDataset, "
+            "CMRxReconDataset with num_slices = a*b | a | b, FakeMRIBlobsDataset with nz slices per generated volume) are contiguous "
+            "from 0, ordered, and cover 0..len-1 exactly once; for the H5 / CMRx constructors this holds with no hypothesis on the "
+            "arguments (selection = filenames_filter > filenames_lists > sorted directory listing, de-duplicated keeping the "
+            "first, then regex: select_nodup, build_ranges_partition, cmr_build_ranges_partition, build_is_parse), for the bare "
+            "fold and for explicitly named fake volumes under distinct names (generated names are proved distinct); "
+            "data[start_k + r] is the r-th smallest admissible slice of the k-th readable file (iff), "
+            "len(range(*slice.indices(n))) equals the number of admitted slices; CMRx 2-D index s <-> (s // b, s % b) is a "
+            "bijection; FakeMRIBlobsDataset item k*nz+s is slice s of volume k generated from volume k's own seed; "
+            "SheppLoganDataset[idx] renders slice idx % nz with seed[idx] and reports that slice (all integers idx; the pinned "
+            "tree's slice_no = idx has a witness); the context window has length 2c+1, centre = the slice, entry j = slice s-c+j "
+            "or a zero block; file selection is invariant under permutations of the directory listing; ConcatDataset runs the "
+            "binary search of CPython's bisect_right, which is proved to meet the documented contract on every non-decreasing "
+            "list, maps idx to (member, local index) uniquely = entry idx of the flat enumeration of the members, negatives as "
+            "len+idx, out-of-range rejected; synthetic items are functions of the per-sample seed only, independent of the global "
+            "stream, of any mixed access history, and of the schedule (worker / epoch / copy) that serves an epoch; every request "
+            "behind an item goes to a stream seeded with the item's seed inside the same access, make_blobs' per-centre counts add up "
+            "to n_samples. Tied to the code by 17 translated arithmetic kernels + 17 structural tables (bridge lemmas, incl. no "
+            "instance state written by the item path, call sites outside the data modules, build_dataset_from_input) and exact "
+            "differential correspondence on labelled h5/.mat fixtures built from constructor arguments, on the library functions "
+            "the model re-implements (bisect_right incl. unsorted lists, slice.indices / range, dict.fromkeys), on the index "
+            "structure of the synthetic datasets (which seed reproduces item i), and on the recorded request sequence of every "
+            "numpy stream involved (global stream, make_blobs' private stream: uniform / normal per centre / shuffle).",
+    "note": "Trusted: Lean kernel (+propext, Classical.choice, Quot.sound), the AST translator, h5py slicing, Python list "
+            "indexing / dict insertion order / re.match / pathlib.glob and Path ordering (inputs of the model, computed by the harness "
+            "with the same library calls), numpy RandomState and sklearn make_blobs as 'a stream seeded with s answers the same "
+            "request sequence with the same values' (the request sequence itself is modelled and compared on every run). "
+            "bisect_right, slice.indices, range and dict.fromkeys are executable definitions compared directly with the library on "
+            "every run; bisect_right is additionally proved against its contract. FastMRI fixtures carry a minimal valid ISMRMRD "
+            "XML header written by the harness (the real header parser runs). The numerics between draws and k-space are a "
+            "parameter `render`; their bit-reproducibility (also under in-place modification of returned arrays, pickle / deepcopy "
+            "copies, forked DataLoader workers over two epochs, the same object several times in a concatenation, numpy integer "
+            "indices, seed=None) is checked on the implementation only. Repaired findings keep witnesses (duplicate_names_, "
+            "listing_order_, window_, fake_, shepp_pinned_violates, shepp_negative_index_pinned_violates). Observations outside the "
+            "quantifier (evidence notes): explicit duplicate `filenames` of FakeMRIBlobsDataset are used verbatim "
+            "(fake_duplicate_names_observation).",
+    "technique": "Lean 4 proof (list induction, loop invariant of the binary search, omega, permutation counting) + AST translation "
+                 "bridge + differential correspondence + property oracle on the real datasets (incl. subprocesses with varied "
+                 "PYTHONHASHSEED and forked DataLoader workers)",
 }
 TRUSTED = [
     "Lean 4.33 kernel; axioms ⊆ {propext, Classical.choice, Quot.sound}",
     "harness/translate recipes c12 (window bounds/guards/fill lengths, ConcatDataset arithmetic, volume range arithmetic, "
-    "structural tables of parse_filenames_data / get_slice_data / file selection / subclass forwarding / CMRxRecon / ConcatDataset, "
-    "seed-plumbing tables)",
-    "Python slice.indices, range membership/len, list indexing, dict assignment order, bisect.bisect_right: hand-modelled, "
-    "validated by correspondence; re.match results and the OS directory listing order are inputs of the model (computed by the "
-    "harness with the same library calls)",
+    "blobs n_samples, slices per fake volume; structural tables of parse_filenames_data / get_slice_data / file selection / "
+    "subclass forwarding / CMRxRecon / ConcatDataset / FakeMRIBlobsDataset index structure / SheppLoganDataset item / make_blobs "
+    "call / no instance or shared state written / call sites / build_dataset_from_input; seed-plumbing tables)",
+    "Python list indexing, dict insertion order: hand-modelled, validated by correspondence; re.match results, Path ordering and the "
+    "OS directory listing order are inputs of the model (computed by the harness with the same library calls)",
+    "bisect.bisect_right, slice.indices, len(range)/list(range), list(dict.fromkeys): executable model definitions compared "
+    "directly with the library on every run (bisect_right also on unsorted lists) — no longer assumed by any theorem",
     "h5py: file[key][a:b] returns slices a..b-1; numpy concatenate/zeros/swapaxes index semantics",
     "fixtures: FastMRI files with a minimal ISMRMRD header + attrs['max']; Calgary-Campinas layout (slices, ny, nz, 2*coils) "
     "real-valued; CMRxRecon .mat = h5 with compound (real, imag) of shape (slices, frames, coils, ny, nx)",
-    "numpy RandomState / sklearn make_blobs: a stream seeded with s produces the same draws; make_blobs(random_state=int) "
-    "uses a private stream (checked on every run by replaying the recorded global-stream calls)",
+    "numpy RandomState / sklearn make_blobs: a stream seeded with s answers the same request sequence with the same values; the "
+    "request sequences (global stream: seed / uniform / randn; make_blobs' private stream: uniform(centres), normal per centre, "
+    "shuffle) are recorded by a RandomState subclass and compared with the model on every run",
+    "torch DataLoader (fork start method) as the way worker processes are created in the worker/epoch oracle",
 ]
 ASSUMPTIONS = [
-    "theorems about the bare fold assume distinct readable file names; the constructors guarantee it (select_nodup)",
+    "theorems about the bare fold assume distinct readable file names; the H5 / CMRx constructors guarantee it (select_nodup, "
+    "build_is_parse), FakeMRIBlobsDataset guarantees it for the names it generates (fake_renamed_names_nodup); names given "
+    "explicitly to FakeMRIBlobsDataset are the caller's",
     "h5 files are not modified between construction and access",
     "`render` (blob image, sensitivity maps, FFT) is a deterministic function of the drawn values — checked bit-for-bit on "
-    "the implementation by the oracle, not proved",
+    "the implementation by the oracle (reload, twin, copies, workers), not proved",
 ]
 RULE = ("h5 pools: files with 1..9 slices, content value = 1000*file + slice; datasets = ordered selections of 0..6 pool files "
         "(incl. unreadable / missing / repeated ones) given as filenames_filter, .lst lists, or a directory listing (hard links "
         "created in shuffled order) with optional regex_filter; classes H5SliceData / FastMRIDataset / CalgaryCampinasDataset "
-        "(crop 50:-50 on 1..104-slice files) / CMRxReconDataset (contexts None/slice/time on (a, b) in 1..3 x 1..4); filters = "
-        "None / slice objects with None/negative/out-of-range bounds and steps ±1..±5 / malformed (step 0, non-slice), contexts "
-        "0..3, pass_h5s / sensitivity_maps companions; every index incl. negative and out-of-range is accessed. non-trivial = at "
-        "least 2 readable files and (a filter or context >= 1) for h5 cases, every dataset/cmr construction case, >= 2 members "
-        "for concat cases, a multi-coil or zero-slice access for RNG cases, any oracle case; distinct = distinct protocol line / "
-        "oracle case key")
+        "(crop 50:-50 on 1..104-slice files) / CMRxReconDataset (contexts None/slice/time on (a, b) in 1..3 x 1..4; listing / "
+        "filter / lists); filters = None / slice objects with None/negative/out-of-range bounds and steps ±1..±5 / malformed "
+        "(step 0, truthy non-slices incl. range objects, falsy non-slices), contexts 0..3, pass_h5s / sensitivity_maps "
+        "companions; every index incl. negative and out-of-range is accessed; library streams: bisect_right on sorted and "
+        "unsorted lists, slice.indices on n in 0..104, dict.fromkeys; synthetic index streams: FakeMRIBlobsDataset with names "
+        "None / str / list of the right or a wrong length / empty, 2-D and 3-D, SheppLoganDataset nz 1..5 with indices -nz-2..nz+1; "
+        "RNG streams: FakeMRIData calls (coils 1..8, seeds incl. 0, blobs_n_samples set or not) and dataset items. non-trivial = "
+        "at least 2 readable files and (a filter or context >= 1) for h5 cases, every dataset/cmr construction case, >= 2 members "
+        "for concat cases, >= 2 elements for library cases, >= 2 volumes / slices for index cases, a multi-coil or zero-slice "
+        "access for RNG cases, any oracle case; distinct = distinct protocol line / oracle case key")
 # genuine deviations on the unchanged tree that wait for the lead's fix:/known: decision
-PENDING_FINDINGS: list[str] = ["shepp-negative-index-slice-no"]
+PENDING_FINDINGS: list[str] = []
 
 for _n in ("H5SliceData", "FakeMRIBlobsDataset", "SheppLoganDataset", "ConcatDataset", "FakeMRIData", "direct",
            "FastMRIDataset", "CalgaryCampinasDataset", "CMRxReconDataset"):
@@ -1185,9 +1212,34 @@ def oracle(ctx: Ctx, deep: bool = False):
             yield Violation("shepp-ranges-not-a-partition", "SheppLoganDataset.volume_indices is not range(0, len)", rep)
         zero = [bool(np.allclose(ds.sample_image(i), 0)) for i in range(len(ds))]
         yield from _repro(ds, twin, rng, rep, "shepp", lambda i: zero[i])
-    yield from _oracle_interleaved(ctx, deep)
-    yield from _oracle_phase2(ctx, deep)
-    yield from _oracle_phase3(ctx, deep)
+    yield from _guard("interleaved", _oracle_interleaved(ctx, deep))
+    yield from _guard("classes", _oracle_phase2(ctx, deep))
+    yield from _guard("histories", _oracle_phase3(ctx, deep))
+
+
+def _guard(section: str, gen):
+    """an exception that passes through the implementation while an oracle section drives it with inputs that are valid on
+    the unchanged tree is the implementation failing: reported with its traceback (anything else stays a tool failure)"""
+    import traceback
+
+    import core
+
+    try:
+        yield from gen
+    except core.ToolFailure:
+        raise
+    except Exception as e:  # noqa: BLE001
+        tb = traceback.extract_tb(e.__traceback__)
+        in_repo = [f for f in tb if f.filename.startswith(str(core.REPO) + "/")]
+        if not in_repo:
+            raise
+        site = in_repo[-1]
+        rel = site.filename[len(str(core.REPO)) + 1:]
+        yield Violation(f"oracle-exception:{section}:{type(e).__name__}:{rel}:{site.name}",
+                        f"while checking {section}: {type(e).__name__}: {e} (raised through {rel}:{site.lineno} in {site.name}) on an "
+                        f"input that is valid on the unchanged tree"[:400],
+                        {"op": "exception", "section": section, "exception": repr(e)[:300], "site": f"{rel}:{site.lineno} in {site.name}",
+                         "traceback": traceback.format_exception(type(e), e, e.__traceback__)[-10:]})
 
 
 def _mapping(ds):
@@ -1602,7 +1654,7 @@ def _oracle_phase3(ctx: Ctx, deep: bool):
                 try:
                     it = ds[ix]
                     good = _ident(it)[0] == refs[name][i][0][0] and _arr_same(it["kspace"], refs[name][i][1]) and \
-                        (int(it["slice_no"]) == refs[name][i][0][1] or (int(ix) < 0 and name.startswith("SheppLogan")))
+                        int(it["slice_no"]) == refs[name][i][0][1]
                 except Exception as e:  # noqa: BLE001
                     good = False
                 if not good:
@@ -1921,6 +1973,11 @@ def replay(rep: dict) -> bool:
 
     rng = pyrandom.Random(0)
     op = rep.get("op")
+    if op == "exception":
+        sec = {"interleaved": _oracle_interleaved, "classes": _oracle_phase2, "histories": _oracle_phase3}.get(rep.get("section"))
+        if sec is None:
+            return True
+        return any(v.replay.get("op") == "exception" for v in _guard(rep["section"], sec(Ctx(PROP, "quick", 0), False)))
     if op == "corr":
         got = _impl_answer(rep["line"], rep.get("seed", 0), rep.get("tier", "quick"))
         return got is None or got.strip() != rep["expected"].strip()
